@@ -125,13 +125,17 @@ def attrC01 : AttrFn := fun c o spec =>
       if Engine.SetOps.hasTopSetop c.plan then
         (attrC24 c o spec).map (fun id => if id == "C24-F1" then "C01-F24a" else "C01-F24b")
       else none
-    if exact.isSome then exact
-    else if hasNull c && neutralPasses c then
-      if anyNode isAggNode c.plan then (if anyNode isGroupedNode c.plan then some "C01-F21" else none)
-      else if anyNode hasSubqueryExpr c.plan then some "C01-F23"
-      else if anyNode isJoinNode c.plan then some "C01-F22"
-      else if anyNode isSetopNode c.plan then some "C01-F24a"
+    -- the NULL-neutraliser classes; a case they do not explain (e.g. a wrong GLOBAL aggregate) falls through to the later classes
+    let viaNull : Option String :=
+      if hasNull c && neutralPasses c then
+        if anyNode isAggNode c.plan then (if anyNode isGroupedNode c.plan then some "C01-F21" else none)
+        else if anyNode hasSubqueryExpr c.plan then some "C01-F23"
+        else if anyNode isJoinNode c.plan then some "C01-F22"
+        else if anyNode isSetopNode c.plan then some "C01-F24a"
+        else none
       else none
+    if exact.isSome then exact
+    else if viaNull.isSome then viaNull
     else if nooptPasses c then some "C01-F03"
     -- signature-only classes (no neutraliser exists at the data / configuration level); a failure outside them is a new VIOLATION
     else if hasCorrelatedSubquery c then some "C01-F23c"
